@@ -163,6 +163,16 @@ def run(p, report, tier):
                        f"{sb.file}:{n.lineno}", okv, detail="allocation / rand_argmax / choice / index conversion" if okv else
                        "the indices are computed by sorting / reducing the NaN-marked utilities directly: NaN entries are "
                        "not excluded and ties are not broken at random")
+    # the validation of the utilities accepts what the property quantifies over: any dimensionality, NaN entries
+    for c in ast.walk(sb.node):
+        if isinstance(c, ast.Call) and c01.callname(c) == "check_array" and c.args and isinstance(c.args[0], ast.Name) \
+                and c.args[0].id == sb.params()[0]:
+            kws = {k.arg: ast.unparse(k.value) for k in c.keywords if k.arg}
+            need = {"allow_nd": ("True",), "ensure_2d": ("False",), "ensure_all_finite": ("'allow-nan'", "False", '"allow-nan"')}
+            miss = [k for k, vs in need.items() if kws.get(k) not in vs]
+            report.add("R18.2", "simple_batch", f"`{site_id(c, 40)}` accepts n-d utilities with NaN", f"{sb.file}:{c.lineno}", not miss,
+                       detail="allow_nd / ensure_2d=False / NaN allowed" if not miss else
+                       "missing or different: " + ", ".join(miss) + " - utilities of three or more dimensions (or with NaN) are rejected")
     funcs = [sb]
     facts = {id(sb.node): c01.FnFacts(sb)}
     c02.check_loops(p, report, funcs, facts, rule21="R18.2", rule22="R18.2")
